@@ -130,7 +130,13 @@ static void build_archives(void)
 	 * never be handed out, however often the caller asks again after the end */
 	a = &ARCS[NARCS++]; ab_init(a, 1 << 18);
 	ab_add(a, 0, 0, "-lh0-", "", "FIRST.TXT", NULL, 30, 31, 0, 0, 0);
+	AB_DOUBLE_NAME = 1;         /* this member and the next carry their name twice */
 	ab_add(a, 2, 0, "-lh5-", "", "second.txt", NULL, 500, 32, 1, 0100644, 1262304000);
+	ab_add(a, 1, 0, "-lh0-", "sub/", "third.txt", NULL, 40, 34, 1, 0100644, 1262304000);
+	AB_DOUBLE_NAME = 0;
+	/* a directory entry without any metadata (no Unix headers, zero time stamp) and a file in it */
+	ab_add(a, 2, 1, "-lhd-", "bare/", "", NULL, 0, 0, 0, 0, 0);
+	ab_add(a, 2, 0, "-lh0-", "bare/", "in", NULL, 12, 35, 0, 0, 0);
 	ab_stub(a, 22, 0);
 	ab_add(a, 1, 0, "-lh0-", "", "ghost.txt", NULL, 10, 33, 0, 0, 0);
 	--a->nm;
